@@ -33,6 +33,7 @@ CONSTANTS
  Goals = {1, 2, 3}
  Origins = {%(origins)s}
  AdvKinds = {}
+ AdvSrcs = {"adv"}
  TrackWire = TRUE
  UseIds = TRUE
  NodeTeardown = TRUE
